@@ -4,6 +4,8 @@ Line protocol of the multisig model (`zdrv-C21`; Go side: `harness/cmd/c21`). Co
 
 `init <fee> <now> | <id:bal:nonce>* | <client:sk>*`        (client ids 2.. hold the BLS secret `sk`)
 `tick <seconds>`                                            (the next blocks carry a later creation date)
+`skew <seconds>`                                            (signed: the following transactions carry creation date = block date + skew;
+                                                             the model hands the BLOCK date to `vote`)
 `reg  <sender> <value> <fee> <nonce> !<v> | <clientId>:<pkOwner|->:<scheme 0|1>:<numRequired>:<tids|->:<keys|->`
       tids = comma list of tokens (`t < 1000`: hex of t; `1000 ≤ t < 2000`: the same id spelled with a leading 0;
       `t ≥ 2000`: not hex); keys = comma list of `k<client>` | `b<v>`
@@ -20,6 +22,7 @@ structure DS where
   keys : List (Nat × Fr) := []
   st : MSt Fr := { accts := [], wallets := [], props := [], queue := [], nextSerial := 0 }
   txn : Nat := 0
+  skew : Int := 0          -- transaction creation date − block creation date, for the following transactions
   ready : Bool := false
 
 /-- the driver's concrete message-point function of a transfer (see `ZcnLine.hm`). -/
@@ -178,10 +181,10 @@ def answer (r : MSt Fr × Status) (errTag : Option String) (extra : String) : St
   let ex := if r.2 = .success then extra else "-"
   s!"{showStatus r.2} {cls} {ex} {showState r.1}"
 
-def parseCall (sender value fee nonce : String) : Option Call := do
+def parseCall (date : Int) (sender value fee nonce : String) : Option Call := do
   let s ← sender.toNat?
   if s > maxId then none
-  pure { sender := s, value := ← value.toNat?, fee := ← fee.toNat?, nonce := ← nonce.toInt? }
+  pure { sender := s, value := ← value.toNat?, fee := ← fee.toNat?, nonce := ← nonce.toInt?, date := date }
 
 def step (d : DS) (ws : List String) : DS × String :=
   match ws with
@@ -194,9 +197,14 @@ def step (d : DS) (ws : List String) : DS × String :=
     match dt.toNat? with
     | some dt => ({ d with now := d.now + dt }, "ok")
     | none => (d, "bad-op")
+  | ["skew", dt] =>
+    if !d.ready then (d, "bad-op") else
+    match dt.toInt? with
+    | some dt => ({ d with skew := dt }, "ok")
+    | none => (d, "bad-op")
   | [op, sender, value, fee, nonce, arg] =>
     if !d.ready then (d, "bad-op") else
-    match parseCall sender value fee nonce with
+    match parseCall (d.now + d.skew) sender value fee nonce with
     | none => (d, "bad-op")
     | some c =>
       match op with
